@@ -96,8 +96,8 @@ class Interp:
                 v = env.get(k)
                 if isinstance(v, tuple) and v and v[0] == "r":
                     k = v[1]
-                elif isinstance(v, tuple) and v and v[0] in ("v", "c", "t"):
-                    pass  # a promoted `&CONST` held by value: dereferencing it is the identity
+                elif isinstance(v, tuple) and v and v[0] in ("v", "c", "t", "s", "strof"):
+                    pass  # a promoted `&CONST` held by value / a symbolic reference: dereferencing it is the identity
                 else:
                     k = k + ".*"
             elif isinstance(e, dict) and "f" in e:
@@ -210,6 +210,11 @@ class Interp:
         if k == "Use":
             return self.operand(rv["op"], env)
         if k in ("Ref", "RawPtr"):
+            pl = rv["place"]
+            if pl["p"] == ["*"]:
+                v0 = env.get("_%d" % pl["l"])
+                if isinstance(v0, tuple) and v0 and v0[0] in ("s", "strof"):
+                    return v0  # reborrow of a symbolic reference is the same reference
             return ("r", self.key(rv["place"], env))
         if k == "CopyForDeref":
             return self.read(rv["place"], env)
